@@ -7,6 +7,7 @@
 import ShVerif.Proofs.L4PrintGen
 import ShVerif.Proofs.L4Single
 import ShVerif.Proofs.L4ParseWF
+import ShVerif.Proofs.L4Fix
 import ShVerif.Props.C01
 namespace ShVerif.Props.C02
 open ShVerif ShVerif.L4
@@ -274,12 +275,81 @@ theorem idempotent_word (o : Opts) (w : Word) (hw : w.wf = true) (b : Bytes) (hp
   show nwordBytes (normParts parts) = nwordBytes w.norm
   rw [h2]
 
+/-! ## Without SingleLine: the printer is a fixpoint on its own layout
+
+  Outside SingleLine the printed layout depends on the line numbers in the tree.  Call `f'` a
+  *transcript* of printing `f` (`trFileB o f f'`, executable, `Model/L4Transcript.lean`) when `f'`
+  has the shape of `f` and carries, as line numbers, the lines on which `printFile o f` actually
+  writes the corresponding tokens: every word starts on the line where it was written and ends
+  that line plus the newlines inside it, a statement starts where its first token was written, a
+  `;`/`&` sits where it was written, an operator not after its right operand.  Programs without
+  subshells and blocks.
+
+  `reprint_fixpoint`: printing a transcript writes the same bytes again — for *every* option set
+  without SingleLine (Minify, BinaryNextLine, Indent n, …), every line-number assignment of `f`
+  (no `posMono`), continuation lines, blank lines and multi-line `&&`/`||`/`|` lists included.
+  The proof (`Proofs/L4Fix.lean`) runs the two printer passes side by side: same flags and
+  levels, same bytes, and the second pass's line counter *is* the current output line.
+
+  What parsing adds is `transcript_statement`: the parser reads the printed text back as a
+  transcript.  It is stated, validated by execution (driver op `spectr`: 333 of 333 linear
+  non-SingleLine programs of one harness run, see C02.notes.md) and not proved: the proved lexer
+  and parser lemmas (`parse_WF`, `parse_flatten`: the tree is the lexer's token stream, each
+  token at its own position) describe the positions in terms of the *source text*, and the missing
+  link is the lexer lemma "the k-th token of `render pieces` sits on line 1 + newlines before it"
+  threaded through the round-trip proof, which so far forgets positions. -/
+
+/-- **The printer is a fixpoint on its own layout.** -/
+theorem reprint_fixpoint (o : Opts) (f f' : File) (hsl : o.singleLine = false) (t : trFileB o f f' = true) :
+    printFile o f' = printFile o f :=
+  printFile_transcript o f f' hsl t
+
+/-- the same with the relational form of "transcript" (`TrFile`, which the check decides) -/
+theorem reprint_fixpoint_rel (o : Opts) (f f' : File) (hsl : o.singleLine = false) (t : TrFile o f f') :
+    printFile o f' = printFile o f :=
+  printFile_fix o f f' hsl t
+
+/-- idempotence of one formatting run, given that its re-parsed output is a transcript -/
+theorem idempotent_of_transcript (o : Opts) (l : Lang) (f f' : File) (b : Bytes) (hsl : o.singleLine = false)
+    (hp : printFile o f = .ok b) (_hq : parse l b = .ok f') (t : trFileB o f f' = true) :
+    printFile o f' = .ok b := by
+  rw [reprint_fixpoint o f f' hsl t]; exact hp
+
+/-- the hypotheses are satisfiable, with a continuation line, a blank line, a `&&` broken after
+    the operator, `&` and a quoted newline: the parser does read the printed text back as a
+    transcript here -/
+example :
+    (match parse .bash "a \\\n  b &\n\n\nc 'x\ny' &&\n d | e\n! f".toUTF8.toList with
+     | .ok f =>
+       match printFile {} f with
+       | .ok b =>
+         match parse .bash b with
+         | .ok f' => trFileB {} f f' && !f.stmts.toList.isEmpty && b.count 10 ≥ 6
+         | _ => false
+       | _ => false
+     | _ => false) = true := by
+  decide +kernel
+
 /-! ## Stated, not proved
 
   Idempotence without SingleLine on the part of F0 that avoids the two recorded shapes.  A
   definition, not a theorem (the layout then depends on the positions the parser assigns, which
   the proved parser lemmas do not describe); checked by execution (`specidem` ops: model and Go
   code side by side) on every run. -/
+
+/-- the parser reads printed text back as a transcript (programs without subshells and blocks) -/
+def transcript_statement : Prop :=
+  ∀ (o : Opts) (l : Lang) (src : Bytes) (f f' : File) (b : Bytes), parse l src = .ok f → f.stmts.lin = true →
+    o.singleLine = false → printFile o f = .ok b → parse l b = .ok f' → trFileB o f f' = true
+
+/-- idempotence without SingleLine on programs without subshells and blocks -/
+def idempotent_linear_statement : Prop :=
+  ∀ (o : Opts) (l : Lang) (src : Bytes) (f f' : File) (b : Bytes), parse l src = .ok f → f.stmts.lin = true →
+    o.singleLine = false → printFile o f = .ok b → parse l b = .ok f' → printFile o f' = .ok b
+
+/-- … which is all that is missing: -/
+theorem idempotent_linear_of_transcript (h : transcript_statement) : idempotent_linear_statement :=
+  fun o l src f f' b hs hl hsl hp hq => idempotent_of_transcript o l f f' b hsl hp hq (h o l src f f' b hs hl hsl hp hq)
 
 def idempotent_partial_statement : Prop :=
   ∀ (o : Opts) (l : Lang) (f f' : File) (b : Bytes), f.wf = true → posMono f → f.stmts.noParenParen = true →
